@@ -23,7 +23,11 @@ subscribed subject (for *every* ownership configuration, valid or not) -/
 theorem irredundant (c : Cfg) (subs : List Str) (h : subscribe c = some subs)
     (i j : Nat) (hi : i < subs.length) (hj : j < subs.length) (hne : i ≠ j) :
     Pattern.matches subs[j] subs[i] = false := by
-  sorry
+  have he := subscribe_eq h
+  subst he
+  simp only [List.length_map] at hi hj
+  simp only [List.getElem_map]
+  exact keptIdx_irredundant _ i j hi hj hne
 
 /-- an owned pattern is well-formed: non-empty, made of literal tokens, `*` and a trailing `>` -/
 def ownedOk (p : Str) : Prop :=
@@ -35,7 +39,8 @@ theorem covers (c : Cfg) (subs : List Str) (h : subscribe c = some subs)
     (hok : ∀ p ∈ (ownership c).1 ++ (ownership c).2, ownedOk p)
     (n : Str) (hn : n ∈ allPatterns (ownership c).1 (ownership c).2) :
     ∃ s ∈ subs, Pattern.matches s n = true := by
-  sorry
+  rw [subscribe_eq h]
+  exact subs_cover (allPatterns_ok hok) n hn
 
 /-- **coverage of concrete request subjects**: for an owned pattern `p`, a resource name matching
 `p` and a method, the subjects `get.<name>`, `call.<name>.<method>`, `auth.<name>.<method>` and
@@ -48,39 +53,114 @@ theorem covers_requests (c : Cfg) (subs : List Str) (h : subscribe c = some subs
     (∃ s ∈ subs, Pattern.matches s (tGet ++ Ch.dot :: Pattern.render name) = true) ∧
     (∃ s ∈ subs, Pattern.matches s (tCall ++ Ch.dot :: Pattern.render (name ++ method)) = true) ∧
     (∃ s ∈ subs, Pattern.matches s (tAuth ++ Ch.dot :: Pattern.render (name ++ method)) = true) := by
-  sorry
+  obtain ⟨m, rfl, hmok⟩ := hmeth
+  have hall := allPatterns_ok hok
+  have hpok : OwnedOk p := hok p (List.mem_append_left _ hp)
+  have hsubs : ∀ s ∈ subs, IsPat s := fun s hs =>
+    (hall s (subs_subset (subscribe_eq h ▸ hs))).isPat
+  -- one request type: the subscription covering the request pattern also matches the subject
+  have step : ∀ t ∈ [tGet, tCall, tAuth], ∀ subj : Str, IsPat subj →
+      Pattern.matches (reqPattern t p) subj = true → ∃ s ∈ subs, Pattern.matches s subj = true := by
+    intro t ht subj hsubj hm'
+    have hmem : reqPattern t p ∈ allPatterns (ownership c).1 (ownership c).2 :=
+      mem_allPatterns.2 (Or.inl ⟨t, ht, p, hp, rfl⟩)
+    obtain ⟨s, hs, hsm⟩ := covers c subs h hok _ hmem
+    exact ⟨s, hs, matches_trans_of (hsubs s hs) (hall _ hmem).isPat hsubj hsm hm'⟩
+  have hwn := Pattern.wfPat_of_isName hname
+  have hname' := isName_append_lit hname hmok
+  have hwn' := Pattern.wfPat_of_isName hname'
+  have subjPat : ∀ t (ts : List Pattern.Tok), Pattern.litOk t = true → ts ≠ [] → Pattern.wfPat ts = true →
+      IsPat (t ++ Ch.dot :: Pattern.render ts) := fun t ts ht hne hw =>
+    ⟨.lit t :: ts, wfPat_lit_cons ht hw, render_lit_cons t ts hne⟩
+  refine ⟨?_, ?_, ?_⟩
+  · exact step tGet (by simp) _ (subjPat _ _ (by decide) (isName_ne_nil hname) hwn)
+      (reqPattern_matches_get hpok hname hm)
+  · exact step tCall (by simp) _ (subjPat _ _ (by decide) (isName_ne_nil hname') hwn')
+      (reqPattern_matches_method (by decide) (by decide) hpok hname hm hmok)
+  · exact step tAuth (by simp) _ (subjPat _ _ (by decide) (isName_ne_nil hname') hwn')
+      (reqPattern_matches_method (by decide) (by decide) hpok hname hm hmok)
 
 theorem covers_access (c : Cfg) (subs : List Str) (h : subscribe c = some subs)
     (hok : ∀ p ∈ (ownership c).1 ++ (ownership c).2, ownedOk p)
     (p : Str) (hp : p ∈ (ownership c).2) (name : List Pattern.Tok) (hname : Pattern.isName name = true)
     (hm : Pattern.matches p (Pattern.render name) = true) :
     ∃ s ∈ subs, Pattern.matches s (tAccess ++ Ch.dot :: Pattern.render name) = true := by
-  sorry
+  have hall := allPatterns_ok hok
+  have hpok : OwnedOk p := hok p (List.mem_append_right _ hp)
+  have hmem : tAccess ++ Ch.dot :: p ∈ allPatterns (ownership c).1 (ownership c).2 :=
+    mem_allPatterns.2 (Or.inr ⟨p, hp, rfl⟩)
+  obtain ⟨s, hs, hsm⟩ := covers c subs h hok _ hmem
+  have hsp : IsPat s := (hall s (subs_subset (subscribe_eq h ▸ hs))).isPat
+  have hwn := Pattern.wfPat_of_isName hname
+  have hsubj : IsPat (tAccess ++ Ch.dot :: Pattern.render name) :=
+    ⟨.lit tAccess :: name, wfPat_lit_cons (by decide) hwn, render_lit_cons _ _ (isName_ne_nil hname)⟩
+  exact ⟨s, hs, matches_trans_of hsp (hall _ hmem).isPat hsubj hsm (accPattern_matches (by decide) hpok hname hm)⟩
 
 /-- **every subscribed subject is a valid NATS subject** -/
 theorem subjects_valid (c : Cfg) (subs : List Str) (h : subscribe c = some subs)
     (hok : ∀ p ∈ (ownership c).1 ++ (ownership c).2, ownedOk p) :
     ∀ s ∈ subs, validSubject s = true := by
-  sorry
+  intro s hs
+  exact validSubject_of (allPatterns_ok hok s (subs_subset (subscribe_eq h ▸ hs)))
 
 /-- the default ownership patterns of a named service are well-formed owned patterns, so the
 three theorems above apply to every service with a valid name and no explicit ownership -/
 theorem default_ok (name : Str) (ts : List Pattern.Tok) (hts : Pattern.isName ts = true) (hn : name = Pattern.render ts) :
-    ∀ p ∈ defaultPatterns name, ownedOk p := by
-  sorry
+    ∀ p ∈ defaultPatterns name, ownedOk p :=
+  defaultPatterns_ok name ts hts hn
 
-theorem default_ok_noname : ∀ p ∈ defaultPatterns [], ownedOk p := by
-  sorry
+theorem default_ok_noname : ∀ p ∈ defaultPatterns [], ownedOk p :=
+  defaultPatterns_nil_ok
 
 /-- on well-formed subscription subjects the library's `Matches` is NATS subject matching -/
 theorem matches_is_nats (ps ss : List Pattern.Tok) (hp : Pattern.wfPat ps = true) (hs : Pattern.wfPat ss = true)
     (hpt : Pattern.tagsOf ps = []) (hst : Pattern.tagsOf ss = []) (hne : ps ≠ []) (hne' : ss ≠ []) :
-    Pattern.matches (Pattern.render ps) (Pattern.render ss) = Subs.covers (Pattern.render ps) (Pattern.render ss) := by
-  sorry
+    Pattern.matches (Pattern.render ps) (Pattern.render ss) = Subs.covers (Pattern.render ps) (Pattern.render ss) :=
+  matches_eq_covers ps ss hp hs hpt hst hne hne'
 
 /-! ## non-vacuity -/
 -- "a" = [97], "a.>" = [97,46,62]
 example : ownedOk [97, 46, 62] := ⟨[.lit [97], .full], by simp, by decide, by decide, by decide⟩
 example : (ownership ⟨[], true, false, none, none⟩) = ([[62]], []) := by decide
+
+section
+attribute [local simp] Ch.dot Ch.dollar Ch.star Ch.gt Ch.qmark
+set_option linter.unusedSimpArgs false
+
+-- service "a" with resource handlers, default ownership: owned "a", "a.>";
+-- "call.a.*" and "auth.a.*" are skipped because "call.a.>" / "auth.a.>" cover them
+example : subscribe ⟨[97], true, false, none, none⟩ =
+    some [[103, 101, 116, 46, 97],                       -- get.a
+          [103, 101, 116, 46, 97, 46, 62],               -- get.a.>
+          [99, 97, 108, 108, 46, 97, 46, 62],            -- call.a.>
+          [97, 117, 116, 104, 46, 97, 46, 62]] := by     -- auth.a.>
+  simp [subscribe, ownership, defaultPatterns, allPatterns, reqPattern, kept, tGet, tCall, tAuth,
+    tAccess, Pattern.matches, Pattern.matchesLoop, Pattern.skipTok, List.zipIdx]
+
+-- explicit ownership with a duplicate ("a.>" twice) and a covered pattern ("a.*"), access ">":
+-- each subject is subscribed once
+example : subscribe ⟨[97], true, true, some [[97, 46, 62], [97, 46, 62], [97, 46, 42]], some [[62]]⟩ =
+    some [[103, 101, 116, 46, 97, 46, 62],               -- get.a.>
+          [99, 97, 108, 108, 46, 97, 46, 62],            -- call.a.>
+          [97, 117, 116, 104, 46, 97, 46, 62],           -- auth.a.>
+          [97, 99, 99, 101, 115, 115, 46, 62]] := by     -- access.>
+  simp [subscribe, ownership, defaultPatterns, allPatterns, reqPattern, kept, tGet, tCall, tAuth,
+    tAccess, Pattern.matches, Pattern.matchesLoop, Pattern.skipTok, List.zipIdx]
+
+-- nothing registered: "no resources to serve"
+example : subscribe ⟨[97], false, false, none, none⟩ = none := by decide
+
+-- the hypotheses of `covers_requests` are met by the default service "a", owned pattern "a.>",
+-- resource "a.b", method "m": "call.a.b.m" is matched by a subscription
+example : ∃ subs, subscribe ⟨[97], true, false, none, none⟩ = some subs ∧
+    ∃ s ∈ subs, Pattern.matches s (tCall ++ Ch.dot :: Pattern.render [.lit [97], .lit [98], .lit [109]]) = true := by
+  refine ⟨_, rfl, ?_⟩
+  have hok := default_ok [97] [.lit [97]] (by decide) (by decide)
+  exact (covers_requests ⟨[97], true, false, none, none⟩ _ rfl
+    (fun p hp => hok p (by simpa [ownership] using hp))
+    [97, 46, 62] (by decide) [.lit [97], .lit [98]] [.lit [109]] (by decide)
+    (by simp [Pattern.render, joinDots, Pattern.matches, Pattern.matchesLoop, Pattern.skipTok])
+    ⟨[109], rfl, by decide⟩).2.1
+end
 
 end GoRes.Props.C09
